@@ -1,2 +1,130 @@
-(* Properties_C08_bitmap.v — placeholder, theorems are added below as they are proved *)
-Require Import VV.Base VV.Bitmap.
+(* Properties_C08_bitmap.v — C08: the bitmap behaves as a set of 16-bit integers
+   under any history.  Statements only; proofs are in BitmapProofs*.v.
+   Model: Bitmap.v (bm_* mirror varintBitmap.c function by function, after the
+   fix: commits for F24 and F14).  Specification of histories: BitmapSpec.v.
+   bm_to_array s (= the sequence produced by the iterator loop, see
+   C08_bitmap_iteration) is the abstraction: the ascending list of members. *)
+Require Import VV.Base VV.Bitmap VV.BitmapSpec VV.BitmapLemmas VV.BitmapProofs VV.BitmapProofsSer VV.BitmapProofsHist VV.BitmapProofsIter.
+From Coq Require Import Sorted.
+Local Open Scope N_scope.
+
+(* the representation invariant (array strictly ascending with cardinality = its
+   length <= capacity; bitmap bytes with cardinality = popcount; runs non-empty,
+   ascending, disjoint, inside 0..65535 with cardinality = sum of lengths) holds
+   for a fresh bitmap *)
+Theorem C08_bitmap_inv_create : bm_Inv bm_create /\ bm_to_array bm_create = [].
+Proof. exact (conj inv_create abs_create). Qed.
+Print Assumptions C08_bitmap_inv_create.
+
+(* under the invariant every query answers for the set of members *)
+Theorem C08_bitmap_answers : forall s, bm_Inv s ->
+  StronglySorted N.lt (bm_to_array s) /\
+  (forall x, In x (bm_to_array s) -> x < 65536) /\
+  bm_cardinality s = N.of_nat (length (bm_to_array s)) /\
+  (bm_is_empty s = true <-> bm_to_array s = []) /\
+  (forall v, v < 65536 -> (bm_contains s v = true <-> In v (bm_to_array s))).
+Proof. exact answers_sound. Qed.
+Print Assumptions C08_bitmap_answers.
+
+Theorem C08_bitmap_add : forall s v, bm_Inv s -> v < 65536 ->
+  bm_Inv (fst (bm_add s v)) /\
+  (forall x, In x (bm_to_array (fst (bm_add s v))) <-> x = v \/ In x (bm_to_array s)) /\
+  (snd (bm_add s v) = true <-> ~ In v (bm_to_array s)).
+Proof. exact add_spec. Qed.
+Print Assumptions C08_bitmap_add.
+
+Theorem C08_bitmap_remove : forall s v, bm_Inv s -> v < 65536 ->
+  bm_Inv (fst (bm_remove s v)) /\
+  (forall x, In x (bm_to_array (fst (bm_remove s v))) <-> In x (bm_to_array s) /\ x <> v) /\
+  (snd (bm_remove s v) = true <-> In v (bm_to_array s)).
+Proof. exact remove_spec. Qed.
+Print Assumptions C08_bitmap_remove.
+
+Theorem C08_bitmap_add_range : forall s lo hi, bm_Inv s -> lo < 65536 -> hi < 65536 ->
+  bm_Inv (bm_add_range s lo hi) /\
+  forall x, In x (bm_to_array (bm_add_range s lo hi)) <-> (lo <= x < hi) \/ In x (bm_to_array s).
+Proof. exact add_range_spec. Qed.
+Print Assumptions C08_bitmap_add_range.
+
+Theorem C08_bitmap_remove_range : forall s lo hi, bm_Inv s -> lo < 65536 -> hi < 65536 ->
+  bm_Inv (bm_remove_range s lo hi) /\
+  forall x, In x (bm_to_array (bm_remove_range s lo hi)) <-> In x (bm_to_array s) /\ ~ (lo <= x < hi).
+Proof. exact remove_range_spec. Qed.
+Print Assumptions C08_bitmap_remove_range.
+
+Theorem C08_bitmap_add_many : forall s vs, bm_Inv s -> (forall v, In v vs -> v < 65536) ->
+  bm_Inv (bm_add_many s vs) /\
+  forall x, In x (bm_to_array (bm_add_many s vs)) <-> In x vs \/ In x (bm_to_array s).
+Proof. exact add_many_spec. Qed.
+Print Assumptions C08_bitmap_add_many.
+
+Theorem C08_bitmap_clear_clone_optimize : forall s, bm_Inv s ->
+  (bm_Inv (bm_clear s) /\ bm_to_array (bm_clear s) = []) /\ bm_clone s = s /\ bm_optimize s = s.
+Proof. exact (fun s H => conj (inv_clear s H) (conj (clone_eq s) eq_refl)). Qed.
+Print Assumptions C08_bitmap_clear_clone_optimize.
+
+Theorem C08_bitmap_and : forall a b, bm_Inv a -> bm_Inv b ->
+  bm_Inv (bm_and a b) /\ forall x, In x (bm_to_array (bm_and a b)) <-> In x (bm_to_array a) /\ In x (bm_to_array b).
+Proof. exact and_spec. Qed.
+Print Assumptions C08_bitmap_and.
+
+Theorem C08_bitmap_or : forall a b, bm_Inv a -> bm_Inv b ->
+  bm_Inv (bm_or a b) /\ forall x, In x (bm_to_array (bm_or a b)) <-> In x (bm_to_array a) \/ In x (bm_to_array b).
+Proof. exact or_spec. Qed.
+Print Assumptions C08_bitmap_or.
+
+Theorem C08_bitmap_xor : forall a b, bm_Inv a -> bm_Inv b ->
+  bm_Inv (bm_xor a b) /\
+  forall x, In x (bm_to_array (bm_xor a b)) <->
+            (In x (bm_to_array a) /\ ~ In x (bm_to_array b)) \/ (In x (bm_to_array b) /\ ~ In x (bm_to_array a)).
+Proof. exact xor_spec. Qed.
+Print Assumptions C08_bitmap_xor.
+
+Theorem C08_bitmap_andnot : forall a b, bm_Inv a -> bm_Inv b ->
+  bm_Inv (bm_andnot a b) /\
+  forall x, In x (bm_to_array (bm_andnot a b)) <-> In x (bm_to_array a) /\ ~ In x (bm_to_array b).
+Proof. exact andnot_spec. Qed.
+Print Assumptions C08_bitmap_andnot.
+
+(* deserialising what was serialised (whatever follows it, with any declared
+   length that covers it) gives the same set *)
+Theorem C08_bitmap_decode_encode : forall s, bm_Inv s -> forall tl len,
+  N.of_nat (length (bm_encode s)) <= len ->
+  exists s', fst (bm_decode (bm_encode s ++ tl) len) = Some s' /\ bm_Inv s' /\
+             bm_to_array s' = bm_to_array s /\ bm_cardinality s' = bm_cardinality s.
+Proof. exact decode_encode_app. Qed.
+Print Assumptions C08_bitmap_decode_encode.
+
+(* every finite history over a pool of n bitmaps, starting from empty bitmaps:
+   after every step the returned flag and Cardinality / IsEmpty / ToArray of
+   every bitmap of the pool are those of the same history over sets *)
+Theorem C08_bitmap_history_refines : forall n ops, Forall op_wf ops ->
+  bm_run (repeat bm_create n) ops = s_run (repeat (fun _ => false) n) ops.
+Proof. exact history_refines_from_empty. Qed.
+Print Assumptions C08_bitmap_history_refines.
+
+(* a step leaves every bitmap other than its target as it was (operands of the
+   binary operations included) *)
+Theorem C08_bitmap_operands_unchanged : forall pool o j, op_target o <> Some j ->
+  nth j (fst (bm_step pool o)) bm_create = nth j pool bm_create.
+Proof. exact operands_unchanged. Qed.
+Print Assumptions C08_bitmap_operands_unchanged.
+
+(* the iterator: calling IteratorNext until it returns false (here: `fuel` calls,
+   more than the cardinality) yields currentValue = the members in ascending
+   order, each once, for every container *)
+Theorem C08_bitmap_iteration : forall s fuel, bm_Inv s -> (length (bm_to_array s) < fuel)%nat ->
+  bm_iter_run fuel s bm_iter_init = bm_to_array s.
+Proof. exact iter_run_all. Qed.
+Print Assumptions C08_bitmap_iteration.
+
+(* hypotheses are satisfiable by non-trivial inputs; F24's witness now keeps 7 *)
+Example C08_bitmap_f24_witness :
+  let s := bm_add_range (fst (bm_add bm_create 7)) 100 6000 in
+  bm_contains s 7 = true /\ bm_cardinality s = 5901.
+Proof. vm_compute. split; reflexivity. Qed.
+
+Example C08_bitmap_history_example :
+  bm_run (repeat bm_create 2) [OAddRange 0 10 5000; OAdd 0 3; ORemove 0 10; OXor 1 0 0; OSerDes 0; OContains 0 4999]
+  = s_run (repeat (fun _ => false) 2) [OAddRange 0 10 5000; OAdd 0 3; ORemove 0 10; OXor 1 0 0; OSerDes 0; OContains 0 4999].
+Proof. vm_compute. reflexivity. Qed.
